@@ -492,7 +492,7 @@ func rulePairReset(c *Ctx, dv *dev, at actionTable) {
 		}
 		var called []*ssa.Function
 		for _, e := range p.Effects {
-			if e.Kind == "call" && e.Callee != nil && c.P.OwnedFunc(e.Callee) && !strings.HasSuffix(e.Callee.Name(), "logFields") && !strings.HasSuffix(e.Callee.Name(), "$thunk") && !strings.HasSuffix(e.Callee.Name(), "$bound") {
+			if e.Kind == "call" && e.Callee != nil && c.P.OwnedFunc(e.Callee) && !strings.HasSuffix(e.Callee.Name(), "logFields") && !strings.HasSuffix(e.Callee.Name(), "$thunk") && !strings.HasSuffix(e.Callee.Name(), "$bound") && !(e.Inlined && only[e.Callee]) {
 				called = append(called, e.Callee) // (a method value taken from a table is called through a synthetic thunk: transparent)
 			}
 			if (e.Kind == "store" && !e.Local) || e.Kind == "mapset" || e.Kind == "mapdel" || e.Kind == "send" {
